@@ -244,9 +244,11 @@ def run_cases_file(cases, work, tag, profile="release", shards=NPROC):
         with open(part, "w") as f:
             f.write("\n".join(lines[i::k]) + "\n")
         outp = os.path.join(work, "%s.%s.%d.out" % (tag, profile, i))
-        cmd = "%s run < %s | %s > %s" % (hb, part, DRIVER, outp)
+        mid = os.path.join(work, "%s.%s.%d.mid" % (tag, profile, i))
+        cmd = "%s run < %s > %s && %s < %s > %s" % (hb, part, mid, DRIVER, mid, outp)
         procs.append((subprocess.Popen(cmd, shell=True, stderr=subprocess.PIPE, text=True), outp, part))
     flines, done = [], 0
+    STATS.setdefault(tag, dict(refused_by_impl=0, notes={}, kinds={}))
     deadline = time.time() + 3000
     for p, outp, part in procs:
         try:
@@ -256,7 +258,25 @@ def run_cases_file(cases, work, tag, profile="release", shards=NPROC):
             raise Violation("stream %s exceeded its time cap" % tag, "shard " + part, False)
         txt = open(outp).read().splitlines()
         ok = False
+        midp = outp[:-4] + ".mid"
+        if os.path.exists(midp):
+            with open(midp, errors="replace") as fm:
+                for ml in fm:
+                    if " panic" in ml:
+                        STATS[tag]["refused_by_impl"] += 1
+                    t = ml.split(" ", 3)
+                    if len(t) > 2:
+                        k = t[1] if tag not in ("ent",) else t[1].split("/")[0]
+                        if tag in ("aml", "amlalt", "amlbig") and len(t) > 2:
+                            k = t[2]
+                        if len(k) > 12:
+                            k = "(value)"
+                        STATS[tag]["kinds"][k] = STATS[tag]["kinds"].get(k, 0) + 1
+            os.remove(midp)
         for l in txt:
+            if l.startswith("N "):
+                k = l.split(" ")[1]
+                STATS[tag]["notes"][k] = STATS[tag]["notes"].get(k, 0) + 1
             if l.startswith("F "):
                 flines.append(l)
             elif l.startswith("DONE "):
@@ -269,6 +289,9 @@ def run_cases_file(cases, work, tag, profile="release", shards=NPROC):
     if done != len([l for l in lines if l.strip()]):
         raise Violation("driver processed %d of %d cases on stream %s" % (done, len(lines), tag), "", False)
     return lines, flines
+
+
+STATS = {}
 
 
 def parse_fline(l):
@@ -441,8 +464,15 @@ def main():
                         seen.add(hsh)
                         if nontrivial(stream, l):
                             nt += 1
+                st = STATS.get(stream, {})
+                kinds = st.get("kinds", {})
+                top = dict(sorted(kinds.items(), key=lambda kv: -kv[1])[:40])
                 cov["streams"]["%s/%s" % (stream, prof)] = dict(cases=len(lines), distinct_nontrivial=nt,
-                                                              failures_for_property=len(mine))
+                                                              failures_for_property=len(mine),
+                                                              cases_in_which_the_implementation_refused=st.get("refused_by_impl", 0),
+                                                              cases_outside_the_theorems_wf_guard=st.get("notes", {}),
+                                                              distribution_by_kind=top)
+                STATS.pop(stream, None)
                 cov["evaluations"] += len(lines)
                 cov["distinct_nontrivial"] += nt
                 cov["programs"] += 1
